@@ -150,12 +150,12 @@ def run(ctx):
             for y in f:
                 pairs.add((pos[x], pos[y]))
     # neighbours in a rough order are the interesting pairs: sort by the code's own key once to pick neighbours (selection only)
-    while len(pairs) < ctx.pick(40000, 600000):
+    while len(pairs) < ctx.pick(40000, 120000):
         a = rng.randrange(n)
         b = rng.randrange(n) if rng.random() < 0.5 else min(n - 1, max(0, a + rng.randrange(-4, 5)))
         pairs.add((a, b))
     pairs = sorted(pairs)
-    triples = [(rng.randrange(n), rng.randrange(n), rng.randrange(n)) for _ in range(ctx.pick(15000, 150000))]
+    triples = [(rng.randrange(n), rng.randrange(n), rng.randrange(n)) for _ in range(ctx.pick(15000, 30000))]
     jobs = [("text", texts, idx)]
     jobs += [("cmp", texts, pairs[i:i + 5000]) for i in range(0, len(pairs), 5000)]
     jobs += [("triple", texts, triples[i:i + 5000]) for i in range(0, len(triples), 5000)]
